@@ -26,6 +26,12 @@
      Restart b           the broker process is replaced by a fresh manager with the
                          same broker id; its old session lease stays in etcd
      OrphanExpire l      a lease that is no live manager's session expires or is revoked
+     AcqTxnLost b r      lost response: etcd applies the create-if-absent transaction but the
+     ReacqTxnLost b r    client call returns an error (timeout / connection reset after the
+                         server applied it).  doAcquire / reacquire return the error without
+                         recording anything; the key may now exist with b's id.  (Release
+                         ignores the outcome of its request and ReleaseAll that of the
+                         LeaseRevoke, so a lost response there is RelDelete / OrphanExpire.)
 
    [c_guard = true] is the code with fixes/C18-release-guarded-delete.patch:
    owned maps the resource to the revision of the manager's own write of the key,
@@ -84,7 +90,9 @@ Inductive event :=
 | SessionExpire (b : bytes)
 | ReleaseAll (b : bytes)
 | Restart (b : bytes)
-| OrphanExpire (l : Z).
+| OrphanExpire (l : Z)
+| AcqTxnLost (b r : bytes)     (* AcqTxn applied by etcd, but the client call returns an error *)
+| ReacqTxnLost (b r : bytes).  (* same for the reacquire transaction *)
 
 (* what an Acquire call returns *)
 Inductive ares := AOk | ANotOwner | AShutdown | AErr.
@@ -191,6 +199,24 @@ Definition step (cfg : config) (s : state) (ev : event) : state * option ares :=
       let m := get_mgr s b in
       (mkState e (set_mgr s b (mkMgr true None [] (m_flights m) (m_rel m))), None)
   | Restart b => (mkState e (set_mgr s b fresh_mgr), None)
+  | AcqTxnLost b r =>
+      let m := get_mgr s b in
+      match alookup r (m_flights m) with
+      | Some (FTxn l) =>
+          let k := lease_key cfg r in
+          let '(e', _) := txn e [CmpCreate k 0] [OpPut k b l] [OpGet k] in
+          (mkState e' (set_mgr s b (with_flights m (aremove r (m_flights m)))), Some AErr)
+      | _ => (s, None)
+      end
+  | ReacqTxnLost b r =>
+      let m := get_mgr s b in
+      match alookup r (m_flights m) with
+      | Some (FReacq l) =>
+          let k := lease_key cfg r in
+          let '(e', _) := txn e [CmpValue k b] [OpPut k b l] [] in
+          (mkState e' (set_mgr s b (with_flights m (aremove r (m_flights m)))), Some AErr)
+      | _ => (s, None)
+      end
   | OrphanExpire l =>
       if existsb (fun bm => session_is (snd bm) l) (s_mgrs s) then (s, None)
       else (mkState (revoke e l) (s_mgrs s), None)
